@@ -466,6 +466,17 @@ pub fn c06(tier: &str, seed: u64) {
         let pos = g.below(sel.len() as u64 + 1) as usize;
         sel.insert(pos, d);
       }
+      // a FORGED repeat: same x, same number of values, other values, somewhere BEHIND the genuine
+      // share - it is a repeated x, not a further distinct share (the first occurrence counts)
+      if k >= 1 && !sel.is_empty() && g.chance(1, 3) {
+        stat("oracle.C06.forged_repeats");
+        let i = g.below(sel.len() as u64) as usize;
+        let mut f = sel[i].clone();
+        let j = g.below(f.y.len() as u64) as usize;
+        f.y[j] += Fp::ONE;
+        let at = g.range(i as u64 + 1, sel.len() as u64) as usize;
+        sel.insert(at.min(sel.len()), f);
+      }
       let res = std::panic::catch_unwind(std::panic::AssertUnwindSafe(|| sharks.recover(&sel).map_err(|e| e.to_string())));
       match res {
         Err(_) => fail("recover_panic", &[("t", t.to_string()), ("secret", hex(&want)), ("shares", sel.iter().map(|s| hex(&Vec::from(s))).collect::<Vec<_>>().join(","))]),
@@ -485,7 +496,7 @@ pub fn c06(tier: &str, seed: u64) {
             indep.extend(b);
           }
           if !enough || v != want || v != indep {
-            fail("recover_wrong", &[("t", t.to_string()), ("secret", hex(&want)), ("got", hex(&v)), ("independent", hex(&indep)), ("distinct", distinct.len().to_string())]);
+            fail("recover_wrong", &[("t", t.to_string()), ("secret", hex(&want)), ("got", hex(&v)), ("independent", hex(&indep)), ("distinct", distinct.len().to_string()), ("distinct_x_given", first.len().to_string()), ("shares", sel.iter().map(|s| hex(&Vec::from(s))).collect::<Vec<_>>().join(","))]);
           }
         }
         Ok(Err(_)) => {
